@@ -1,6 +1,7 @@
 package main
 
 import (
+	"go/constant"
 	"go/token"
 	"strings"
 
@@ -221,9 +222,34 @@ func (u *Unit) guardAtoms(c ssa.Value, truth bool) []string {
 			return []string{"(" + u.Describe(x.X) + " " + op.String() + " " + u.Describe(x.Y) + ")"}
 		}
 	case *ssa.Phi:
-		// `a && b` / `a || b` materialised as a phi of constants and a value:
-		// phi(false, b) true  => a && b held: we only know b (and the edge conds).
-		// Keep it simple: describe as-is.
+		// `x := a && b && c` materialises as phi(false, false, c): when the phi
+		// is true the only non-constant edge was taken, so c held and so did
+		// every condition dominating the block that computed it (a, b).
+		// Dually `a || b` = phi(true, b) being false.
+		var varEdge ssa.Value
+		var varPred *ssa.BasicBlock
+		okShape := true
+		for i, e := range x.Edges {
+			if cst, isC := e.(*ssa.Const); isC && cst.Value != nil && cst.Value.Kind() == constant.Bool {
+				if constant.BoolVal(cst.Value) == truth {
+					okShape = false // a constant edge already yields the observed value
+				}
+				continue
+			}
+			if varEdge != nil {
+				okShape = false
+			}
+			varEdge, varPred = e, x.Block().Preds[i]
+		}
+		if okShape && varEdge != nil {
+			out := u.guardAtoms(varEdge, truth)
+			if len(varPred.Instrs) > 0 {
+				for _, g := range GuardsAt(varPred) {
+					out = append(out, u.guardAtoms(g.Cond, g.Truth)...)
+				}
+			}
+			return out
+		}
 	}
 	s := u.Describe(c)
 	if truth {
